@@ -16,7 +16,8 @@ PROP = dict(
               'Fit.C20.C20_remove_exact', 'Fit.C20.C20_reduce_exact_distance', 'Fit.C20.C20_reduce_exact_distance_mono',
               'Fit.C20.C20_reduce_exact_time', 'Fit.C20.C20_reduce_conserves', 'Fit.C20.C20_reduce_rdp_sublist', 'Fit.C20.C20_reduce_rdp_exact',
               'Fit.C20.C20_combine_order', 'Fit.C20.C20_combine_sort', 'Fit.C20.C20_combine_accumulate', 'Fit.C20.C20_combine_closed_form', 'Fit.C20.C20_conceal_lap_session_F17_witness',
-              'Fit.C20.C20_conceal_lap_session_partial', 'Fit.C20.C20_conceal_lap_session_start_partial', 'Fit.C20.C20_conceal_lap_session_end', 'Fit.C20.C20_conceal_lap_session_none_revealed', 'Fit.C20.C20_agg_invalid_neutral'],
+              'Fit.C20.C20_conceal_lap_session_partial', 'Fit.C20.C20_conceal_lap_session_start_partial', 'Fit.C20.C20_conceal_lap_session_end', 'Fit.C20.C20_conceal_lap_session_none_revealed', 'Fit.C20.C20_agg_invalid_neutral',
+              'Fit.C20.C20_conceal_lap_session_allend_fixed', 'Fit.C20.C20_remove_sublist'],
     families=[dict(name='activity', prop=True), dict(name='agg')],
     trusted_base=STD_TRUST + [
         "message and field numbers (record/lap/session/…, position, distance, start_time, total_timer_time) and the remover's list of known message numbers are printed from the compiled packages on every run (Generated/ToolConsts.lean)",
